@@ -8,7 +8,6 @@ import (
 	"bytes"
 	"fmt"
 	"reflect"
-	"sort"
 	"testing"
 
 	"github.com/New-JAMneration/JAM-Protocol/internal/types"
@@ -138,10 +137,6 @@ func c17EntrySets(n int, full bool) [][]c17Entry {
 }
 
 // ---- oracle ----
-
-type c17Ctx struct {
-	r *vlib.Run
-}
 
 func c17Classify(k types.StateKey, orig map[types.StateKey]string) string {
 	if c, ok := orig[k]; ok {
@@ -391,6 +386,19 @@ func TestVerif_C17(t *testing.T) {
 	k := vlib.Pick(r, 1, 2) // deviations of the 16 components
 	idx := uint64(0)
 
+	// (ii) component deviations x fixed delta, a few orders
+	groups := cgenGroups(cgenTState, cgenCtx{noDelta: true})
+	for _, g := range groups {
+		idx++
+		if !r.Mine(idx) {
+			continue
+		}
+		cgenEnumerateGroup(cgenTState, g, k, cgenCtx{noDelta: true}, func(devs []cgenDev, _ reflect.Value, _ int) bool {
+			c17RunConfig(r, append([]cgenDev(nil), devs...), c17FixedSvc, "comp", false, nil)
+			return true
+		})
+	}
+
 	// (i) delta shapes x all orders, minimal components. budget = total number of
 	// service-related key-values (service infos + entries).
 	type pass struct {
@@ -420,6 +428,9 @@ func TestVerif_C17(t *testing.T) {
 				if !r.Mine(idx) {
 					continue
 				}
+				if r.Expired() {
+					return
+				}
 				c17RunConfig(r, nil, []c17Svc{{ids[0], es}}, "delta", true, nil)
 			}
 		}
@@ -433,6 +444,9 @@ func TestVerif_C17(t *testing.T) {
 					if !r.Mine(idx) {
 						continue
 					}
+					if r.Expired() {
+						return
+					}
 					c17RunConfig(r, nil, []c17Svc{{ids[0], e0}, {ids[1], e1}}, "delta", true, nil)
 				}
 			}
@@ -441,17 +455,5 @@ func TestVerif_C17(t *testing.T) {
 			return
 		}
 	}
-	// (ii) component deviations x fixed delta, a few orders
-	groups := cgenGroups(cgenTState, cgenCtx{noDelta: true})
-	for _, g := range groups {
-		idx++
-		if !r.Mine(idx) {
-			continue
-		}
-		cgenEnumerateGroup(cgenTState, g, k, cgenCtx{noDelta: true}, func(devs []cgenDev, _ reflect.Value, _ int) bool {
-			c17RunConfig(r, append([]cgenDev(nil), devs...), c17FixedSvc, "comp", false, nil)
-			return true
-		})
-	}
-	_ = sort.Ints
+
 }
